@@ -122,6 +122,12 @@ def _prepare_makefile():
     proj = '-Q . SV\n-arg -w -arg -notation-overridden,-deprecated,-ambiguous-paths\n' + '\n'.join(srcs) + '\n'
     changed = write_if_changed(os.path.join(COQ, '_CoqProject'), proj)
     if changed or not os.path.exists(os.path.join(COQ, 'Makefile')):
+        # the file list changed: have coqdep recompute every dependency (a stale .Makefile.d let a
+        # property file be compiled before a newly added file it requires)
+        try:
+            os.unlink(os.path.join(COQ, '.Makefile.d'))
+        except OSError:
+            pass
         subprocess.check_call(['coq_makefile', '-f', '_CoqProject', '-o', 'Makefile'],
                               cwd=COQ, stdout=subprocess.DEVNULL)
 
